@@ -10,6 +10,12 @@ use std::time::Instant;
 
 pub const VERIF: &str = "/verif";
 
+/// where replays and evidence are written: /verif, or a scratch directory when a seeded change is
+/// evaluated in a parallel lane (seeded/lane.sh) so that the committed evidence is not touched
+pub fn out_root() -> String {
+    std::env::var("VERIF_OUT").unwrap_or_else(|_| VERIF.to_string())
+}
+
 #[derive(Clone, Copy, Debug, PartialEq, Eq)]
 pub enum Mode {
     Quick,
@@ -339,8 +345,8 @@ pub fn finish(rep: Report, stats: Stats) -> i32 {
     let known = load_known(rep.property);
     let mut new_violations = 0;
     let mut known_hits: BTreeMap<String, u64> = BTreeMap::new();
-    let _ = std::fs::create_dir_all(format!("{VERIF}/replays"));
-    let _ = std::fs::create_dir_all(format!("{VERIF}/evidence"));
+    let _ = std::fs::create_dir_all(format!("{}/replays", out_root()));
+    let _ = std::fs::create_dir_all(format!("{}/evidence", out_root()));
     let mut vio_list = Vec::new();
     // maintenance mode (never used by a check): dump the input hashes of the findings that are
     // identified input by input
@@ -379,7 +385,7 @@ pub fn finish(rep: Report, stats: Stats) -> i32 {
                 }
                 if let Some(first) = fresh.first() {
                     new_violations += 1;
-                    let path = format!("{VERIF}/replays/{}-{:016x}.json", rep.property, hash64(&(sig, "new-input")));
+                    let path = format!("{}/replays/{}-{:016x}.json", out_root(), rep.property, hash64(&(sig, "new-input")));
                     let body = json!({"property": rep.property, "sig": sig, "count": fresh.len(), "what": first.what, "case": first.case, "note": "this input is not in the list of inputs covered by the known finding"});
                     std::fs::write(&path, serde_json::to_string_pretty(&body).unwrap()).unwrap_or_else(|e| machinery(&format!("cannot write {path}: {e}")));
                     println!("VIOLATION property={} replay={}", rep.property, path);
@@ -395,7 +401,7 @@ pub fn finish(rep: Report, stats: Stats) -> i32 {
             continue;
         }
         new_violations += 1;
-        let path = format!("{VERIF}/replays/{}-{:016x}.json", rep.property, hash64(&sig));
+        let path = format!("{}/replays/{}-{:016x}.json", out_root(), rep.property, hash64(&sig));
         let body = json!({"property": rep.property, "sig": sig, "count": n, "what": v.what, "case": v.case});
         std::fs::write(&path, serde_json::to_string_pretty(&body).unwrap()).unwrap_or_else(|e| machinery(&format!("cannot write {path}: {e}")));
         println!("VIOLATION property={} replay={}", rep.property, path);
@@ -440,7 +446,7 @@ pub fn finish(rep: Report, stats: Stats) -> i32 {
         "violations": new_violations,
         "known_findings_hit": known_hits.len(),
     });
-    let path = format!("{VERIF}/evidence/{}.json", rep.property);
+    let path = format!("{}/evidence/{}.json", out_root(), rep.property);
     std::fs::write(&path, serde_json::to_string_pretty(&ev).unwrap()).unwrap_or_else(|e| machinery(&format!("cannot write {path}: {e}")));
     println!(
         "{} {:?}: evaluations={} states={} distinct_nontrivial={} outcomes={} violations={} known={} wall={:.1}s",
